@@ -84,7 +84,7 @@ def _failed_refresh_keeps_old_tile_ref(ex, st, post, result):
 contract(C + 'TileCreator._create_meta_tile', props=['C08', 'C04', 'C13'],
          types=dict(meta_tile='obj:mapproxy.grid:MetaTile'), returns='opaque',
          default_callee='opaque', opaque_spec=OPAQUE_SPEC, opaque_fields=OPAQUE_FIELDS, stable_fields=['cacheable', 'coord'],
-         requires=[], raises={'SourceError': True},
+         requires=[], raises={'SourceError': True, 'IOError': True},      # IOError: an undecodable meta image (split_meta_tiles)
          ensures=[],
          trace=[
              T.only_under_lock('_query_sources', text='C08(iii): the upstream is queried only while the meta tile lock is held'),
